@@ -46,7 +46,7 @@ def program(n, reqs, raw, opts, tail_datagram=True, raws=None):
     for k in ('id', 'ttl', 'proto'):
         if k in opts: o.append('%s: %d' % (k, opts[k]))
     for k in ('df', 'evil'):
-        if k in opts: o.append('%s: %s' % (k, 'true' if opts[k] else 'false'))
+        if k in opts: o.append('%s: %s' % (k, opts.get(k + '_spelling') or ('true' if opts[k] else 'false')))
     lines.append('let fr = ipv4::frag(10.1.2.3, 10.200.100.50, %s%s);' % (''.join(x + ', ' for x in o), pe))
     for j, (kind, off, ln) in enumerate(reqs):
         rj = raws[j] if raws is not None else raw          # raw mode is a property of the CALL, not of the context
@@ -110,7 +110,7 @@ def check(c, n, reqs, raw, opts, tag, raws=None):
                     c.violation('frag:reassembly', 'a covering fragment set does not reassemble to the payload: %s' % r[:100], dict(src=src.decode()[:3000]))
             c.count('reassembled')
         c.traces_validated += 1
-        if recs: key = (n, tuple(reqs), raw, tuple(sorted(opts.items())))
+        if recs: key = (n, tuple(reqs), raw, tuple(sorted((k, str(v)) for k, v in opts.items())))
     c.count('requests', len(reqs))
     c.case(key, dict(kind=tag, n=n, reqs=reqs[:8], raw=raw, opts=opts) if key else None)
 
@@ -160,7 +160,14 @@ def campaign(c):
         if r.chance(1, 4): opts['evil'] = r.chance(3, 4)
         if r.chance(1, 2): opts['ttl'] = r.choice([0, 1, 64, 255, r.below(256)])       # zero is a value, not "unset"
         if r.chance(1, 2): opts['proto'] = r.choice([0, 1, 6, 17, 47, 255, r.below(256)])
-        check(c, n, reqs[:40], r.chance(1, 3), opts, 'rand')
+        if i % 4 == 1:
+            # flag options given as numbers or typed constants: any non-zero integer is `true`, zero is `false` (C11's conversion rule)
+            r5 = c.rng.fork('boolint%d' % i)
+            for k in ('df', 'evil'):
+                sp, val = r5.choice([('0', False), ('1', True), ('2', True), ('3', True), ('4', True), ('255', True), ('256', True), ('65536', True), ('0x8000', True),
+                                     ('ipv4::proto::TCP', True), ('18446744073709551615', True), ('true', True), ('false', False)])
+                opts[k] = val; opts[k + '_spelling'] = sp
+        check(c, n, reqs[:40], r.chance(1, 3), {k: v for k, v in opts.items()}, 'rand')
         if i % 3 == 0:
             # the same context asked for framed and raw packets in turn (whole datagram, fragments, tails; repeated requests)
             r2 = c.rng.fork('fragmix%d' % i)
